@@ -140,7 +140,7 @@ func c14Families(tier string) []explore.Family {
 	}
 	nCfg := 64
 	G, A, B, M := len(graphs), len(c14Args), len(c14Bodies), len(mains)
-	return []explore.Family{c14ChangeFamily(), c14TwoRootsFamily(), c14ChainFamily(), c14NamesFamily(), c14ScopeFamily(), c14BareNameFamily(), {Name: "include-configurations", Count: int64(nCfg * G * A * B * M * 2), Run: func(i int64, r *explore.Rec) {
+	return []explore.Family{c14ChangeFamily(), c14TwoRootsFamily(), c14ChainFamily(), c14NamesFamily(), c14ScopeFamily(), c14BareNameFamily(), c14RepeatedTagFamily(), {Name: "include-configurations", Count: int64(nCfg * G * A * B * M * 2), Run: func(i int64, r *explore.Rec) {
 		rx := radix{i}
 		noPath := rx.next(2) == 1
 		mi, bi, ai, gi, cfg := rx.next(M), rx.next(B), rx.next(A), rx.next(G), rx.next(nCfg)
@@ -636,6 +636,84 @@ func c14BareNameFamily() explore.Family {
 	}}
 }
 
+// c14RepeatedTagFamily: ONE include tag run several times in one render (a loop) or over several renders of one parsed
+// template, its name expression giving another string each time - every sequence of 1..3 names over three files in
+// two directories; the name computed by a filter in the tag, assigned beforehand, or bound by the caller; the variable
+// the files print reassigned between the runs. Each run renders the file ITS name means, with the variables of that moment.
+func c14RepeatedTagFamily() explore.Family {
+	files := []struct{ name, body, tag string }{{"a", "[A {{ v }}]", "A"}, {"b", "[B {{ v }}{% assign v = 'b' %}]", "B"}, {"sub/c", "[C {{ v }}]", "C"}}
+	forms := []string{
+		`{% for n in names %}{% assign v = forloop.index %}{% include n | append: ".inc" %}{% endfor %}`,
+		`{% for n in names %}{% assign v = forloop.index %}{% assign f = n | append: ".inc" %}{% include f %}{% endfor %}`,
+		`{% tablerow n in names %}{% assign v = forloop.index %}{% include n | append: ".inc" %}{% endtablerow %}`,
+		"renders",
+	}
+	nSeq := int(seqCount(len(files), 3)) - 1
+	return explore.Family{Name: "one-include-tag-run-many-times", Count: int64(nSeq * len(forms) * 2), Run: func(i int64, r *explore.Rec) {
+		rx := radix{i}
+		abs, form, seq := rx.next(2) == 1, forms[rx.next(len(forms))], seqAt(len(files), int64(rx.next(nSeq))+1)
+		eng := liquid.NewEngine()
+		base := "site"
+		if abs {
+			base = filepath.Join(c14.root, "repeated", "site")
+		}
+		for _, f := range files {
+			if _, err := eng.ParseTemplateAndCache([]byte(f.body), filepath.Join(base, "d", f.name+".inc"), 1); err != nil {
+				panic(explore.BaselineFailure{Msg: err.Error()})
+			}
+		}
+		var names []any
+		var want strings.Builder
+		for j, k := range seq {
+			names = append(names, files[k].name)
+			cell := fmt.Sprintf("[%s %d]", files[k].tag, j+1)
+			if strings.HasPrefix(form, "{% tablerow") {
+				if j == 0 {
+					want.WriteString("<tr class=\"row1\">")
+				}
+				cell = fmt.Sprintf("<td class=\"col%d\">%s</td>", j+1, cell)
+			}
+			want.WriteString(cell)
+		}
+		if strings.HasPrefix(form, "{% tablerow") {
+			want.WriteString("</tr>")
+		}
+		r.Eval()
+		r.Transition()
+		var o Outcome
+		o.Panic = explore.Safe(func() {
+			src := form
+			if form == "renders" {
+				src = `{% include f %}`
+			}
+			tpl, err := eng.ParseTemplateLocation([]byte(src), filepath.Join(base, "d", "main.html"), 1)
+			if err != nil {
+				o.Err = err
+				return
+			}
+			if form != "renders" {
+				out, rerr := tpl.Render(map[string]any{"names": names})
+				o.Out, o.Err = string(out), rerr
+				return
+			}
+			for j, n := range names {
+				out, rerr := tpl.Render(map[string]any{"f": n.(string) + ".inc", "v": j + 1})
+				o.Out += string(out)
+				if rerr != nil {
+					o.Err = rerr
+					return
+				}
+			}
+		})
+		r.Class(fmt.Sprintf("repeated-tag/%d/%s", len(seq), o.Class()))
+		r.State("repeated-tag:" + fmt.Sprint(len(seq)))
+		norm := strings.ReplaceAll(strings.ReplaceAll(o.Out, "\n", ""), "\t", "")
+		if o.Panic != nil || o.Err != nil || norm != want.String() {
+			r.Violation("N1:one-include-tag-run-many-times", map[string]any{"main": form, "names": names, "files": "d/a.inc=[A {{ v }}] d/b.inc=[B {{ v }}{% assign v = 'b' %}] d/sub/c.inc=[C {{ v }}]"}, want.String(), o.String())
+		}
+	}}
+}
+
 // c14ChainFamily: include chains of depth 1..12 (file k includes file k+1) and templates with 1..40 sibling
 // includes, on disk and from the cache; the last file of a chain may be missing.
 func c14ChainFamily() explore.Family {
@@ -733,7 +811,7 @@ func init() {
 		ID:    "C14",
 		Level: "fault_enumeration",
 		Rule: "three files (a, a2, sub/b relative to the main template) each independently on disk / in the cache only / in both with different content / missing (4^3 = 64 configurations; 'missing' is the injected fault) x 7 acyclic include graphs (one whose file edges carry trim markers) x 9 argument forms (literal, variable, variable assigned earlier, filtered expression, map property, four non-strings incl. the file name written without quotes) x 4 included bodies (reads variables, assigns, failing filter, syntax error) x main template parsed at 2 (quick) / 3 directory depths and without a path; " +
-			"a second family changes the included file between renders of one parsed template on one engine (all sequences of 3 states from {disk v1, disk v2, removed with/without cache entry}, direct and nested); a third family renders two roots from different directories that share an included file on ONE engine in every order (each result must equal the fresh-engine result); oracle = reference inliner (textual substitution of resolved content) rendered by the engine itself, or a SourceError with os.IsNotExist cause; class = (graph, argument form, outcome kind)",
+			"a second family changes the included file between renders of one parsed template on one engine (all sequences of 3 states from {disk v1, disk v2, removed with/without cache entry}, direct and nested); a third family renders two roots from different directories that share an included file on ONE engine in every order (each result must equal the fresh-engine result); one include tag run many times (every sequence of 1..3 names over three cached files in two directories x {name filtered in the tag inside for, assigned inside for, inside tablerow, one parsed template rendered once per name}, absolute expectation); oracle = reference inliner (textual substitution of resolved content) rendered by the engine itself, or a SourceError with os.IsNotExist cause; class = (graph, argument form, outcome kind)",
 		Assumptions: []string{
 			"nested includes are only generated between files of the main template's own directory, where 'relative to the includer' and 'relative to the main template' coincide (the statement does not separate them)",
 			"cache entries are registered under the cleaned joined path",
